@@ -7,7 +7,7 @@ MODULES = ['PistacheModel.Props.C19']
 THEOREMS = ['Pistache.Net.Props.' + t for t in (
     'port_canonical', 'port_above_range_rejected', 'port_accept_exact', 'port_empty_rejected', 'pton4_canonical',
     'ipv4_with_port', 'ipv4_default_port', 'ipv4_print_parse', 'ipv6_bracketed_with_port', 'ipv6_print_parse',
-    'nul_rejected', 'accepted_port_in_range', 'default_port_is_source_constant')]
+    'nul_rejected', 'accepted_port_in_range', 'default_port_is_source_constant', 'pton4Aux_chars', 'blank_in_host_rejected')]
 
 def hx(b):
     if isinstance(b, str): b = b.encode('latin-1')
